@@ -44,6 +44,14 @@ Fixpoint trim_start (s : str) : str :=
 Definition trim_end (s : str) : str := rev (trim_start (rev s)).
 Definition trim (s : str) : str := trim_end (trim_start s).
 
+(** the line without its terminator: every trailing LF and CR, nothing else ([trim_end_matches] in printer.rs, fix 7f51c1d) *)
+Fixpoint drop_eol_rev (r : str) : str :=
+  match r with
+  | c :: rest => if (c =? 10) || (c =? 13) then drop_eol_rev rest else r
+  | [] => []
+  end.
+Definition strip_eol (s : str) : str := rev (drop_eol_rev (rev s)).
+
 (** length of the UTF-8 encoding of one scalar value *)
 Definition utf8_width (c : N) : nat :=
   if c <? 128 then 1%nat else if c <? 2048 then 2%nat
